@@ -223,6 +223,20 @@ var oracleC18 = oracle{post: func(c *checker) {
 							}
 							return false
 						}},
+						// proofs that bring a merkle root of their own (a field of the proof format): an altered
+						// txid with the root that this txid and path recompute - tied to nothing the
+						// repository knows
+						{"txid-bit-with-self-computed-root", func(q *merkle_proof.MerkleProof) bool {
+							q.TxID[3] ^= 1
+							alt := ref.Hash(*q.TxID)
+							var path []ref.Hash
+							for _, ph := range q.Path {
+								path = append(path, ref.Hash(ph))
+							}
+							root := bitcoin.Hash32(ref.RootFromPath(alt, q.Index, path))
+							q.MerkleRoot = &root
+							return true
+						}},
 						{"no-target", func(q *merkle_proof.MerkleProof) bool {
 							q.BlockHeader, q.BlockHash = nil, nil
 							return true
